@@ -56,6 +56,11 @@ def _run_script(comp: Any, o: dict, script: list, cname: str = 'cli0') -> None:
                 other = World_out()[op[2]]['slots'][op[3]]
                 slots[op[1]] = other
                 v = None
+            elif k in ('result', 'status', 'cancel') and op[1] not in slots:
+                # the submit that would have created this id failed (the
+                # connection was already gone): so is this call
+                raise RuntimeError('Connection unexpectedly none. (the task '
+                                   'was never submitted)')
             elif k == 'result':
                 r = comp.result(slots[op[1]])
                 v = r[1]['out'] if isinstance(r, tuple) else repr(r)
